@@ -44,7 +44,7 @@ def bounds(tier):
 
 def chunks(tier):
     out = [("S", d) for d in range(1, 10)] + [("S", "x")]
-    out += [("U", i) for i in range(8)] + [("R",), ("Q",), ("P",)]
+    out += [("U", i) for i in range(8)] + [("R",), ("Q",), ("P",), ("PS",)]
     return out
 
 
@@ -294,6 +294,37 @@ def check_param(res, mag, uname, unit, order, fmtname):
         res.violation("C20|Reaction.%s|param-magnitude-and-unit" % fmtname, "reaction with k = %s %s printed as %r, expected %r" % (mag, uname, got, exp), case, got, exp)
 
 
+def check_param_system(res, units_seq, fmtname):
+    """several reactions printed by ONE printer (a ReactionSystem): every line shows its own reaction's magnitude and unit,
+    i.e. equals what printing that reaction alone gives"""
+    import itertools as it
+    from chempy import Reaction, ReactionSystem, Substance
+    from chempy import printing
+
+    res.states += 1
+    res.transitions += len(units_seq)
+    res.evaluations += 1
+    res.nontrivial += 1
+    case = dict(layer="PS", units=[u for u, _ in units_seq], fmt=fmtname)
+    subst = {k: Substance(k, latex_name=k, unicode_name=k, html_name=k) for k in "ABCD"}
+    chain = [("A", "B"), ("B", "C"), ("C", "D")]
+    fn = {"string": printing.str_, "latex": printing.latex, "unicode": printing.unicode_, "html": printing.html}[fmtname]
+    try:
+        rxns = [Reaction({a: 1}, {b: 1}, (3.0 + i) * unit) for i, ((a, b), (uname, unit)) in enumerate(zip(chain, units_seq))]
+        rs = ReactionSystem(rxns, subst, checks=())
+        got = fn(rs, with_param=True, with_name=False, substances=subst)
+        sep = "<br>\n" if fmtname == "html" else "\n"
+        exp = sep.join(fn(r, with_param=True, with_name=False, substances=subst) for r in rxns) + sep
+    except Exception as e:
+        res.outcomes["param-system-RAISES"] += 1
+        res.violation("C20|ReactionSystem.%s|with_param-raises" % fmtname, "printing a system with k units %r raised %s" % (case["units"], type(e).__name__), case, "EXC %s" % type(e).__name__, None)
+        return
+    ok = got == exp
+    res.outcomes["param-system-ok" if ok else "param-system-WRONG"] += 1
+    if not ok:
+        res.violation("C20|ReactionSystem.%s|line-differs-from-single-reaction-print" % fmtname, "system with k units %r printed as %r, its reactions alone print as %r" % (case["units"], got, exp), case, got, exp)
+
+
 def _param_units():
     from chempy.units import default_units as u
 
@@ -348,6 +379,16 @@ def run_chunk(chunk, tier):
                         check_quantity(res, xs, p, fmt, uname, unit)
             res.symbols[uname] += 1
         res.sample(dict(layer="Q", x="3.14159e-7", unit="m/s"))
+    elif chunk[0] == "PS":
+        import itertools as it
+        from chempy.units import default_units as u
+
+        pool = [("1/s", 1 / u.s), ("1/min", 1 / u.minute), ("1/hour", 1 / u.hour), ("1/ms", 1 / u.ms)]
+        for n in (2, 3):
+            for seq in it.permutations(pool, n):
+                for fmtname in ("string", "latex", "unicode", "html"):
+                    check_param_system(res, seq, fmtname)
+        res.sample(dict(layer="PS", units=["1/s", "1/min"], fmt="string"))
     else:
         for order, units in sorted(_param_units().items()):
             for uname, unit in units:
@@ -369,6 +410,11 @@ def replay(case):
         sub = Result()
         check_roman(sub)
         res.violations = [v for v in sub.violations if v["case"]["n"] == case["n"]]
+    elif L == "PS":
+        from chempy.units import default_units as u
+
+        pool = dict([("1/s", 1 / u.s), ("1/min", 1 / u.minute), ("1/hour", 1 / u.hour), ("1/ms", 1 / u.ms)])
+        check_param_system(res, [(n, pool[n]) for n in case["units"]], case["fmt"])
     elif L == "Q":
         check_quantity(res, case["x"], case["p"], case["fmt"], case["unit"], dict(_units())[case["unit"]])
     else:
